@@ -185,18 +185,29 @@ def solve_text(args):
     t0 = time.time()
     res, model, solver = "unknown", "", "z3"
     def run_z3(ms):
+        """z3 through its CLI so that a solver that ignores its own timeout can be killed (seq solver)"""
+        with tempfile.NamedTemporaryFile("w", suffix=".smt2", delete=False) as f:
+            f.write(text.replace("(check-sat)", "(check-sat)\n(get-model)"))
+            path = f.name
         try:
-            s = z3.Solver()
-            s.set("timeout", ms)
-            s.from_string(text)
-            r = s.check()
+            p = subprocess.run(["z3-new", "-smt2", "-T:%d" % max(1, ms // 1000), path], capture_output=True, text=True,
+                               timeout=ms / 1000.0 + 3)
+            out = p.stdout.strip().split("\n", 1)
+            r = out[0].strip() if out else "unknown"
+            if r not in ("sat", "unsat"):
+                return "unknown", ""
             mdl = ""
-            if r == z3.sat:
-                m = s.model()
-                mdl = "\n".join("%s = %s" % (d.name(), m[d]) for d in m.decls() if d.arity() == 0)
-            return str(r), mdl
-        except Exception as e:  # parser problems are checker errors, reported as unknown with the reason
+            if r == "sat" and len(out) > 1:
+                import re as _re
+                mdl = "\n".join("%s = %s" % (m.group(1), m.group(2).strip()) for m in _re.finditer(
+                    r'\(define-fun ([^ ]+) \(\) (?:String|Int|Bool)\s+(.*?)\)\s*(?=\(define-fun|\)\s*$)', out[1], _re.S))
+            return r, mdl
+        except subprocess.TimeoutExpired:
+            return "unknown", ""
+        except Exception as e:
             return "unknown", "z3-error: %s" % e
+        finally:
+            os.unlink(path)
     # z3 with a short budget first, cvc5 for what it leaves open, then z3 again with the long budget
     res, model = run_z3(Z3_FAST_MS)
     if res == "unknown" and not model.startswith("z3-error"):
